@@ -2,6 +2,7 @@ package main
 
 import (
 	"fmt"
+	"go/token"
 	"go/types"
 	"strings"
 
@@ -176,7 +177,39 @@ func bitsLen(w int) libHandler {
 // ---------- sync/atomic: sequential read/write of the addressed cell ----------
 
 func registerAtomic() {
+	cas := func(x *Exec, fr *Frame, st *State, site ssa.Instruction, c *ssa.CallCommon, args []Val, rt types.Type) Val {
+		if v, ok := rgCAS(x, fr, st, site, c, args, rt); ok {
+			return v
+		}
+		x.assumed["sync/atomic operations are sequential reads/writes (no interleaving modelled)"] = true
+		t := pointee(c.Args[0].Type())
+		cur := x.loadPtr(st, args[0], t)
+		eq := mkEq(cur, args[1].T)
+		x.storePtr(st, args[0], t, mkIte(eq, args[2].T, cur))
+		return Val{T: eq, Typ: rt}
+	}
+	add := func(x *Exec, fr *Frame, st *State, site ssa.Instruction, c *ssa.CallCommon, args []Val, rt types.Type) Val {
+		if v, ok := rgAdd(x, fr, st, site, c, args, rt); ok {
+			return v
+		}
+		x.assumed["sync/atomic operations are sequential reads/writes (no interleaving modelled)"] = true
+		t := pointee(c.Args[0].Type())
+		cur := Val{T: x.loadPtr(st, args[0], t), Typ: t}
+		sum := x.binop(nil, st, token.ADD, cur, args[1], t, t, t, nil, token.NoPos)
+		if x.mode == ModeInt {
+			sum = wrapInt(sum, t)
+		}
+		x.storePtr(st, args[0], t, sum)
+		return Val{T: sum, Typ: rt}
+	}
+	for _, ty := range []string{"Uint64", "Int64", "Uint32", "Int32"} {
+		libCalls["sync/atomic.CompareAndSwap"+ty] = cas
+		libCalls["sync/atomic.Add"+ty] = add
+	}
 	load := func(x *Exec, fr *Frame, st *State, site ssa.Instruction, c *ssa.CallCommon, args []Val, rt types.Type) Val {
+		if v, ok := rgLoad(x, fr, st, site, c, args, rt); ok {
+			return v
+		}
 		x.assumed["sync/atomic operations are sequential reads/writes (no interleaving modelled)"] = true
 		t := pointee(c.Args[0].Type())
 		return Val{T: x.loadPtr(st, args[0], t), Typ: rt}
